@@ -44,7 +44,7 @@ def attr_value(typ):
 
 @st.composite
 def raw_case(draw):
-    kind = draw(st.sampled_from(["points", "polyline", "surface", "surface", "anyfaces", "tets", "tets", "hexes", "mixed_cells"]))
+    kind = draw(st.sampled_from(["points", "polyline", "surface", "surface", "anyfaces", "tets", "tets", "hexes", "mixed_cells", "cell_soup"]))
     V, F, C = [], [], []
     manifold = False
     if kind == "points":
@@ -61,6 +61,13 @@ def raw_case(draw):
     elif kind == "tets":
         t = draw(GT.tets(max_cells=16))
         V, C, manifold = t["V"], t["C"], True
+    elif kind == "cell_soup":
+        # arbitrary tetrahedra over a few vertices: faces shared by three or more cells, the same cell listed several times
+        n = draw(st.integers(4, 7))
+        V = [[float(i), float(i * i % 3), float(i % 2) + 0.5 * i] for i in range(n)]
+        C = draw(st.lists(st.lists(st.integers(0, n - 1), min_size=4, max_size=4, unique=True), min_size=1, max_size=6))
+        if draw(st.booleans()):
+            C = C + [list(C[0])] + [C[0][1:] + C[0][:1]]        # the same cell again, and once more with rotated vertices
     elif kind == "mixed_cells":
         # tetrahedra and hexahedra in one cell list (disjoint union, cells interleaved in a drawn order)
         Vh, Ch = hex_grid(draw(st.integers(1, 2)), 1, 1)
@@ -142,7 +149,9 @@ def raw_case(draw):
         V = [[v[0], v[1], 0.0] for v in V]
     prefill = bool(F) and draw(st.integers(0, 3)) == 0
     int_vertices = draw(st.integers(0, 3)) == 0     # integral coordinates handed over as python ints / int64 rows
-    return {"kind": kind, "V": V, "E": E, "F": F, "C": C, "attrs": attrs, "form": form, "route": route, "prefill_corners": prefill, "int_vertices": int_vertices,
+    dup_warn = draw(st.integers(0, 3)) == 0         # config.display_duplicate_attribute_warning (create_attribute then returns an existing attribute)
+    row_dtype = draw(st.sampled_from(["int64", "int32", "int16", "uint16", "uint8", "uint8", "uint8"]))   # dtype of numpy index rows
+    return {"kind": kind, "V": V, "E": E, "F": F, "C": C, "attrs": attrs, "form": form, "route": route, "prefill_corners": prefill, "int_vertices": int_vertices, "dup_warn": dup_warn, "row_dtype": row_dtype,
             "complete_edges": complete_edges, "complete_faces": complete_faces, "manifold": manifold}
 
 
@@ -178,7 +187,14 @@ def build_raw(case, form=None):
     import mouette as M
     from mouette.mesh.mesh_data import RawMeshData
     form = form or case["form"]
-    conv = {"list": list, "tuple": tuple, "numpy": lambda r: np.array(r)}[form]
+    dt = case.get("row_dtype", "int64")
+    if form == "numpy":
+        # a narrow dtype is only used when every index (invalid declared edges included) fits into it
+        allidx = [x for rows in (case["E"], case["F"], case["C"]) for r in rows for x in r] + [len(case["V"])]
+        info = np.iinfo(dt)
+        if not all(info.min <= x <= info.max for x in allidx):
+            dt = "int64"
+    conv = {"list": list, "tuple": tuple, "numpy": lambda r: np.array(r, dtype=dt)}[form]
     raw = RawMeshData()
     integral = case.get("int_vertices") and all(float(x).is_integer() and abs(x) < 2 ** 31 for v in case["V"] for x in v)
     Vsrc = [[int(x) for x in v] for v in case["V"]] if integral else case["V"]
@@ -211,6 +227,7 @@ def construct(case, ctx, form=None):
     from mouette.mesh.mesh_data import RawMeshData
     M.config.complete_edges_from_faces = bool(case["complete_edges"])
     M.config.complete_faces_from_cells = bool(case["complete_faces"])
+    M.config.display_duplicate_attribute_warning = bool(case.get("dup_warn"))
     nf = normal_form(case)
     route = case["route"]
     if route in ("from_arrays", "from_arrays2d"):
@@ -432,6 +449,8 @@ def fn(case, ctx):
     inv_attr = any(str(i) in a["values"] for a in case["attrs"] for i in invalid)
     if invalid: ctx.label("invalid-edges")
     if case.get("prefill_corners"): ctx.label("prefilled-face-corners")
+    if case.get("dup_warn"): ctx.label("config:duplicate-attribute-warning=on")
+    if case["form"] == "numpy": ctx.label("row-dtype=" + case.get("row_dtype", "int64"))
     if case.get("int_vertices") and all(float(x).is_integer() for v in case["V"] for x in v): ctx.label("int-typed-vertices")
     if inv_attr: ctx.label("invalid-edge-with-attribute")
     shared = False
@@ -482,5 +501,5 @@ def fn(case, ctx):
                     break
 
 
-SUBCHECKS = [SubCheck("normalise", raw_case(), fn, quick=2400, thorough=4000)]
+SUBCHECKS = [SubCheck("normalise", raw_case(), fn, quick=3600, thorough=5000)]
 MATCHERS = {}
